@@ -161,6 +161,26 @@ def run_engines(case, seed, R):
 # ---------------------------------------------------------------------------------------------
 # padded-FFT route
 
+def wf_repeat(R, w, meth, args, kwargs, out, sig):
+    """A propagation method leaves the Wavefront it was called on as it was, and calling it again gives the same answer
+    (the answer depends on the arguments, not on which transforms the object went through before)."""
+    if out is FAILED:
+        return
+    d0, dx0 = w._verif_snapshot
+    R.expect(np.asarray(w.data).shape == d0.shape and np.array_equal(np.asarray(w.data), d0) and w.dx == dx0,
+             sig + ':object-state-changed', f'{meth} changed the Wavefront it was called on (data shape {d0.shape} -> {np.asarray(w.data).shape}, dx {dx0} -> {w.dx})')
+    again = R.call(getattr(w, meth), *args, **kwargs)
+    if again is not FAILED:
+        same = np.asarray(again.data).shape == np.asarray(out.data).shape and np.array_equal(np.asarray(again.data), np.asarray(out.data)) and again.dx == out.dx
+        R.expect(same, sig + ':second-call-differs', f'calling {meth} twice on one Wavefront with the same arguments gave different results '
+                                                     f'(shapes {np.asarray(out.data).shape} / {np.asarray(again.data).shape}, dx {out.dx} / {again.dx})')
+
+
+def snap(w):
+    w._verif_snapshot = (np.array(w.data, copy=True), w.dx)
+    return w
+
+
 def run_fft(case, seed, R):
     si, Q = tuple(case['in']), case['Q']
     so = tuple(math.ceil(s * Q) for s in si)
@@ -192,10 +212,11 @@ def run_fft(case, seed, R):
                                        f'{method} on the padded-FFT grid differs from the FFT route')
                 # Wavefront wrapper returns the same field
                 if prec == 64:
-                    w = Wavefront(x.copy(), 0.5, 0.1, space='pupil' if fwd else 'psf')
+                    w = snap(Wavefront(x.copy(), 0.5, 0.1, space='pupil' if fwd else 'psf'))
                     out = R.call(w.focus if fwd else w.unfocus, 10.0, Q)
                     if out is not FAILED and got is not FAILED:
                         R.expect_close(out.data, np.asarray(got), 0, 'Wavefront.' + sig, 'Wavefront wrapper differs from the function')
+                    wf_repeat(R, w, 'focus' if fwd else 'unfocus', (10.0, Q), {}, out, 'Wavefront.' + wname)
             R.nontrivial(si != (1, 1))
         finally:
             config.precision = 64
@@ -222,8 +243,9 @@ def run_wrappers(case, seed, R):
         ref = ref_dft.dft2(x, Qf, N, sh, True)
         got = R.call(propagation.focus_fixed_sampling, x.copy(), dxi, efl, wvl, dxo, N if N[0] != N[1] else N[0], shift=shift_units, method=method)
         _cmp_phase(R, got, ref, any(sh), K_TOL * eps * 10, sig)
-        w = Wavefront(x.copy(), wvl, dxi, 'pupil')
+        w = snap(Wavefront(x.copy(), wvl, dxi, 'pupil'))
         out = R.call(w.focus_fixed_sampling, efl, dxo, N, shift=shift_units, method=method)
+        wf_repeat(R, w, 'focus_fixed_sampling', (efl, dxo, N), {'shift': shift_units, 'method': method}, out, f'Wavefront.focus_fixed_sampling:{method}')
         if out is not FAILED:
             _cmp_phase(R, out.data, ref, any(sh), K_TOL * eps * 10, 'Wavefront.' + sig)
             R.expect(out.dx == dxo and out.space == 'psf', 'Wavefront.focus_fixed_sampling:meta', 'dx/space of result')
@@ -235,8 +257,9 @@ def run_wrappers(case, seed, R):
         sig = f'unfocus_fixed_sampling:{method}:{shape_class(N, n)}:{shift_class(sh)}'
         got = R.call(propagation.unfocus_fixed_sampling, X.copy(), dxo, efl, wvl, dxi, n if n[0] != n[1] else n[0], shift=shp, method=method)
         _cmp_phase(R, got, ref, any(sh), K_TOL * eps * 10, sig)
-        w = Wavefront(X.copy(), wvl, dxo, 'psf')
+        w = snap(Wavefront(X.copy(), wvl, dxo, 'psf'))
         out = R.call(w.unfocus_fixed_sampling, efl, dxi, n, shift=shp, method=method)
+        wf_repeat(R, w, 'unfocus_fixed_sampling', (efl, dxi, n), {'shift': shp, 'method': method}, out, f'Wavefront.unfocus_fixed_sampling:{method}')
         if out is not FAILED:
             _cmp_phase(R, out.data, ref, any(sh), K_TOL * eps * 10, 'Wavefront.' + sig)
     R.nontrivial(n != (1, 1))
